@@ -22,7 +22,7 @@ import impl_model as im
 THEOREMS = ['C18_cif_comp_denotes', 'C18_atom_loop_complete', 'C18_atom_loop_sound', 'C18_atom_loop_count', 'C18_aniso_loop_complete', 'C18_aniso_loop_sound',
             'C18_cif_comp_example']
 IMPORTS = 'From SX Require Import Base.Prelude Base.Str Model.Symm Model.Cif.\n'
-ELEMS = ['C', 'H', 'O', 'N', 'Cl', 'D']
+ELEMS = ['C', 'H', 'O', 'N', 'Cl', 'D', 'Tc']
 
 
 def gen_model(rng):
